@@ -872,8 +872,9 @@ def _dec_entry(w):
     from biotite.sequence.annotation import Location
     sid, src, ty, a, b, sc, sd, ph, at = w
     strand = {"+": Location.Strand.FORWARD, "-": Location.Strand.REVERSE, ".": None}[sd]
-    return (ds(sid), ds(src), ds(ty), int(a), int(b), None if sc == "-" else float(ds(sc)), strand,
-            None if ph == "." else int(ph), dict(dpairs(at)))
+    import numpy as np
+    return (ds(sid), ds(src), ds(ty), _sp_int(int(a)), _sp_int(int(b)), None if sc == "-" else (float, np.float64)[_SPELL[0] % 2](ds(sc)), strand,
+            None if ph == "." else _sp_int(int(ph)), dict(dpairs(at)))
 
 
 def _mkloc(l):
@@ -941,7 +942,7 @@ def _gb_line_op(k, w):
         return _feats_out(gba.get_annotation(st))
     if k == "org_print":
         st = _GbStub()
-        gbs.set_sequence(st, ds(w[2]), int(w[1]))
+        gbs.set_sequence(st, ds(w[2]), _sp_int(int(w[1])))
         return "ok " + el(st.lines)
     lines = dl(w[1])
     try:
@@ -997,6 +998,59 @@ def _poke(f):
         _scramble(h)
 
 
+_SPELL = [0]
+
+
+def _sp_int(x):
+    """the same integer in another spelling (Python int / NumPy scalars of several widths)"""
+    import numpy as np
+    _SPELL[0] += 1
+    cands = [int, np.int64, np.int32, np.intp]
+    if -128 <= x <= 127:
+        cands += [np.int8, np.int16]
+    if 0 <= x <= 255:
+        cands += [np.uint8, np.uint16, np.uint64]
+    return cands[_SPELL[0] % len(cands)](x)
+
+
+def _sp_arr(xs):
+    """the same integer array as list / tuple / ndarray of several dtypes, strided, read-only, byte-swapped"""
+    import numpy as np
+    _SPELL[0] += 1
+    k = _SPELL[0] % 8
+    lo, hi = (min(xs), max(xs)) if len(xs) else (0, 0)
+    if k == 0:
+        return list(xs)
+    if k == 1:
+        return tuple(xs)
+    if k == 2:
+        return np.array(xs, dtype=np.int64)
+    if k == 3 and -128 <= lo and hi <= 127:
+        return np.array(xs, dtype=np.int8)
+    if k == 4 and 0 <= lo and hi <= 255:
+        return np.array(xs, dtype=np.uint8)
+    if k == 5:
+        a = np.zeros(2 * len(xs), dtype=np.int32)
+        a[::2] = xs
+        return a[::2]
+    if k == 6:
+        a = np.array(xs, dtype=np.int16)
+        a.flags.writeable = False
+        return a
+    return np.array(xs, dtype=">i4")
+
+
+_STATE = {}
+
+
+def _state_of(st):
+    k = type(st).__name__
+    try:
+        return {"FastaFile": _fa_state, "FastqFile": _fq_state, "GFFFile": _gff_state, "GenBankFile": _gb_state}[k](st)
+    except Exception as e:  # noqa: BLE001
+        return "STATE-ERR:" + type(e).__name__
+
+
 def run_impl(case):
     with warnings.catch_warnings():
         warnings.simplefilter("ignore")
@@ -1019,16 +1073,20 @@ def _run_impl(case):
     for op in case["ops"]:
         w = op.split(" ")
         k = w[0]
+        pre = _state_of(st) if st is not None and k.split("_")[-1] in ("set", "del", "append", "insert", "directive", "setfield") else None
         try:
             if st is None and k.split("_")[-1] in ("set", "del", "get", "items", "reread", "append", "insert", "directive", "setfield"):
                 out.append("bad-op")      # no file object (the preceding read was rejected)
             elif k == "wrap":
                 out.append("ok " + el(wrap_string(ds(w[2]), int(w[1]))))
             elif k == "fa_new":
-                st = FastaFile(chars_per_line=int(w[1])); out.append("ok")
+                st = FastaFile(chars_per_line=_sp_int(int(w[1]))); out.append("ok")
             elif k == "fa_read":
                 st = FastaFile.read(io.StringIO("\n".join(dl(w[2])) + "\n"), int(w[1])) if dl(w[2]) else FastaFile.read(io.StringIO("\n"), int(w[1]))
                 out.append(_fa_state(st))
+            elif k in ("fa_copy", "fq_copy", "gff_copy", "gb_copy"):
+                st = st.copy()
+                out.append(_state_of(st))
             elif k in ("fa_poke", "fq_poke", "gff_poke", "gb_poke"):
                 _poke(st)
                 for a in inputs:
@@ -1045,14 +1103,14 @@ def _run_impl(case):
             elif k == "fa_items":
                 it = list(st.items()); out.append("ok " + ("|".join(es(a) + "~" + es(b) for a, b in it) if it else "-"))
             elif k == "fq_new":
-                st = FastqFile(offset=int(w[1]), chars_per_line=None if w[2] == "-" else int(w[2])); out.append("ok")
+                st = FastqFile(offset=_sp_int(int(w[1])), chars_per_line=None if w[2] == "-" else _sp_int(int(w[2]))); out.append("ok")
             elif k == "fq_read":
                 st = FastqFile.read(io.StringIO("\n".join(dl(w[3])) + "\n"), int(w[1]), None if w[2] == "-" else int(w[2]))
                 out.append(_fq_state(st))
             elif k == "fq_reread":
                 st = _reread(FastqFile, st, st._offset, st._chars_per_line); out.append(_fq_state(st))
             elif k == "fq_set":
-                st[ds(w[1])] = (ds(w[2]), [] if w[3] == "_" else [int(x) for x in w[3].split(",")]); out.append(_fq_state(st))
+                st[ds(w[1])] = (ds(w[2]), _sp_arr([] if w[3] == "_" else [int(x) for x in w[3].split(",")])); out.append(_fq_state(st))
             elif k == "fq_del":
                 del st[ds(w[1])]; out.append(_fq_state(st))
             elif k == "fq_get":
@@ -1126,12 +1184,12 @@ def _run_impl(case):
             elif k == "gff_set":
                 t_in = _dec_entry(w[3:]); inputs.append(t_in[8]); st[int(w[1])] = t_in; out.append(_gff_state(st))
             elif k == "gff_del":
-                del st[int(w[1])]; out.append(_gff_state(st))
+                del st[_sp_int(int(w[1]))]; out.append(_gff_state(st))
             elif k == "gff_directive":
                 t = ds(w[2]); d = ds(w[1]); args = t[len(d) + 1:].split(" ") if t[len(d) + 1:] else []
                 st.append_directive(d, *args); out.append(_gff_state(st))
             elif k == "gff_get":
-                out.append("ok " + _gff_entry_out(st[int(w[1])]))
+                out.append("ok " + _gff_entry_out(st[_sp_int(int(w[1]))]))
             elif k == "gb_new":
                 st = GenBankFile(); out.append(_gb_state(st))
             elif k == "gb_read":
@@ -1148,13 +1206,17 @@ def _run_impl(case):
             elif k == "gb_setfield":
                 c_in, s_in = dl(w[2]), dsubs(w[3]); inputs.extend([c_in, s_in]); st.set_field(ds(w[1]), c_in, s_in); out.append(_gb_state(st))
             elif k == "gb_del":
-                del st[int(w[1])]; out.append(_gb_state(st))
+                del st[_sp_int(int(w[1]))]; out.append(_gb_state(st))
             elif k == "gb_get":
-                out.append("ok " + _gb_item(st[int(w[1])]))
+                out.append("ok " + _gb_item(st[_sp_int(int(w[1]))]))
             else:
                 out.append("bad-op")
         except Exception as e:  # noqa: BLE001
-            out.append(err(e))
+            # a refused call must leave the object as it was
+            if pre is not None and _state_of(st) != pre:
+                out.append(err(e) + "!object-changed")
+            else:
+                out.append(err(e))
     return out
 
 
